@@ -47,6 +47,7 @@ def file_props():
     m.setdefault("cache_go1.18.go", ["C07"])
     for f in ("sharded_map.go", "sharded_map_go1.18.go"):
         m[f].append("C18")
+    m["sharded_map_go1.18.go"].append("C15")  # (the embedded invalidation index)
     # cheap and most telling checks first (a mutant is done at its first concrete catch)
     order = {"failover.go": ["C03", "C02", "C06", "C05", "C01", "C04", "C18", "C09", "C16"],
              "trait.go": ["C07", "C10", "C11", "C12", "C18", "C13", "C06", "C02", "C16"]}
